@@ -69,8 +69,13 @@ func c10CollectBash(w *World, b *Backend) []ownedName {
 		where := lineKey(l)
 		pos := w.Pos(l.Em.Pos)
 		// assignment targets (also after local), function definitions, read targets
-		for _, m := range regexp.MustCompile(`(?:^|[ ;(]|local )([A-Za-z_\x{E000}-\x{F8FF}][A-Za-z0-9_\x{E000}-\x{F8FF}]*)=`).FindAllStringSubmatch(txt, -1) {
-			add(m[1], parts, "var", where, pos)
+		for _, m := range regexp.MustCompile(`(?:^|[ ;(]|local )([A-Za-z_\x{E000}-\x{F8FF}][A-Za-z0-9_\x{E000}-\x{F8FF}]*)=`).FindAllStringSubmatchIndex(txt, -1) {
+			// NAME= cmd … (empty value directly followed by a command word) sets NAME for that
+			// command only; the shell variable of that name is not assigned
+			if rest := txt[m[1]:]; len(rest) > 1 && rest[0] == ' ' && rest[1] != ' ' && rest[1] != ';' && rest[1] != '#' {
+				continue
+			}
+			add(txt[m[2]:m[3]], parts, "var", where, pos)
 		}
 		if m := regexp.MustCompile(`^([A-Za-z_\x{E000}-\x{F8FF}][A-Za-z0-9_\x{E000}-\x{F8FF}]*)\(\) \{`).FindStringSubmatch(txt); m != nil {
 			add(m[1], parts, "func", where, pos)
@@ -90,7 +95,7 @@ func c10CollectBash(w *World, b *Backend) []ownedName {
 				last := c.Words[len(c.Words)-1]
 				// words use \x00/\x01 placeholders; recover through the text instead
 				_ = last
-				if m := regexp.MustCompile(`read(?: -p "[^"]*")? ([A-Za-z_\x{E000}-\x{F8FF}][A-Za-z0-9_\x{E000}-\x{F8FF}]*)$`).FindStringSubmatch(txt); m != nil {
+				if m := regexp.MustCompile(`read(?: -[a-zA-Z]+)*(?: -p "[^"]*")? ([A-Za-z_\x{E000}-\x{F8FF}][A-Za-z0-9_\x{E000}-\x{F8FF}]*)$`).FindStringSubmatch(txt); m != nil {
 					add(m[1], parts, "var", where, pos)
 				}
 			}
